@@ -1,5 +1,6 @@
 import Drivers.Wire
 import Model.Select
+import Model.Aggregate
 
 /-!
 Driver for C20.
@@ -115,6 +116,35 @@ def handle (j : Json) : Except String Json := do
       ("weights", ofRats w), ("evals", .arr (tr.evals.map ofNats).toArray), ("missing", missing),
       ("margin", match tr.margin with | some m => ofRat m | none => Json.null),
       ("order_ok", orderOK losses order)]
+  | "check_topk" =>
+    -- verified checker (`C20_checker`) on the real selector's output
+    let losses ← jList jRat (← field j "losses")
+    let k ← jNat (← field j "k")
+    let idx ← jList jNat (← field j "indices")
+    let w ← jList jRat (← field j "weights")
+    return Json.mkObj [("ok", true), ("spec", checkTopK losses k idx w)]
+  | "check_greedy" =>
+    let tol ← jRat (← field j "tol")
+    let n ← jNat (← field j "n")
+    let bound ← jNat (← field j "bound")
+    let idx ← jList jNat (← field j "indices")
+    let w ← jList jRat (← field j "weights")
+    return Json.mkObj [("ok", true), ("spec", checkGreedyOut tol n bound idx w)]
+  | "predict" =>
+    -- `EnsemblePredictor.predict` with a MeanAggregator: ids and per-member cells in completion order
+    let ids ← jList jStr (← field j "ids")
+    let vals ← jList (jList jRat) (← field j "vals")
+    let ws ← jList jRat (← field j "ws")
+    let nums := ids.map idNum
+    if nums.any Option.isNone then
+      return Json.mkObj [("ok", true), ("bad_id", true), ("loc", Json.arr #[])]
+    let jobs : List (Nat × List Rat) := (nums.filterMap id).zip vals
+    let sorted := (sortById jobs).map (·.2)
+    let m := (vals.head?.map List.length).getD 0
+    let locs := (List.range m).map (fun c =>
+      (DH.Aggregate.meanAgg ws (sorted.map (fun v => v[c]?))).loc)
+    return Json.mkObj [("ok", true), ("bad_id", false),
+      ("loc", .arr (locs.map (fun l => match l with | some q => ofRat q | none => Json.null)).toArray)]
   | "sort" =>
     let ids ← jList jStr (← field j "ids")
     let nums := ids.map idNum
